@@ -27,7 +27,7 @@ type c08Suffix struct {
 	agent   string
 }
 
-var c08Sites = []string{"registrationServiceImpl).CancelFlows", "Server).Release", "reinitialize", "registrationServiceImpl).Clear", "gateImpl).Clear", "handleProcessExit", "setShuttingDown", "Server).Clear", "clearExitedChannel", "setRapidPhase", "setRuntimeState", "watchEvents"}
+var c08Sites = []string{"registrationServiceImpl).CancelFlows", "Server).Release", "reinitialize", "registrationServiceImpl).Clear", "gateImpl).Clear", "handleProcessExit", "setShuttingDown", "Server).Clear", "clearExitedChannel", "setRapidPhase", "setRuntimeState", "watchEvents", "Server).Reserve<lambda/rapidcore.(*Server).Invoke"}
 
 func scenC08(r *Run, job *Job) {
 	t := r.T
@@ -87,6 +87,9 @@ func scenC08(r *Run, job *Job) {
 			holdSite = r.Sites[t.Draw(len(r.Sites))]
 		}
 		holdNth, holdSteps = 1+t.Draw(6), 1+t.Draw(10)
+		if strings.Contains(holdSite, "Server).Reserve<") {
+			holdNth = 1 + holdNth%2
+		}
 	}
 	trivial := r.Pass == 2
 	if trivial {
@@ -107,6 +110,12 @@ func scenC08(r *Run, job *Job) {
 	w := r.NewWorld(WorldCfg{TimeoutSec: timeoutSec, ExtFiles: ExtFiles(exts)}, job.Seed)
 	e := w.NewEngine()
 	e.Bound = time.Duration((nP+nS+2)*(timeoutSec+10)) * time.Second
+	if strings.Contains(holdSite, "Server).Reserve<") {
+		// dispatch stall: the goroutine that reserves for the caller stays descheduled while the emulator's own timers
+		// (the invoke timeout among them) fire, for up to half a second longer than the function timeout
+		e.HoldAcrossTimers = true
+		r.MaxHoldTime = T + 500*time.Millisecond
+	}
 	if survivor {
 		e.Bound += time.Duration(nP+2) * 30 * time.Second
 	}
@@ -313,19 +322,6 @@ func scenC08(r *Run, job *Job) {
 	// inside the API server) when that process died and the reset completed
 	if r.Pass == 1 {
 		r.Known = zombieAPIRequest(r, w)
-		if r.Known == "" {
-			// another class: the goroutine of Server.Invoke that reserves and dispatches an invocation was descheduled
-			// for longer than the function timeout, i.e. it only got going after its own invocation had timed out
-			for _, h := range r.Holds {
-				if h.W != nil && h.HeldFor >= T && strings.Contains(h.W.Sig, "lambda/rapidcore.(*Server).Invoke") {
-					fn := h.W.Sig
-					if i := strings.Index(fn, "<"); i > 0 {
-						fn = fn[:i]
-					}
-					r.Known = "dispatch-stalled-past-timeout@" + fn
-				}
-			}
-		}
 	}
 	// ---- normalised trace of the suffix ----
 	trace := c08Trace(r, w, e, sufStart, step0, t0, T)
